@@ -124,11 +124,18 @@ def mk_reset(lib, cls, sides, extra_none=()):
         return z3.Or(*[c.old.f[p].tag == V.T_NONE for p in extra_none]) if extra_none else z3.BoolVal(False)
 
     def ok(c):
+        def int_needs_edges(s_):
+            d = c.old.f[s_ + "_edge_selection"]
+            return z3.Implies(z3.Or(d.tag == V.T_INT, d.tag == V.T_BOOL), z3.Not(c.old.f[s_ + "_edges"].isnone))
         return z3.And(*([z3.Not(bad_index(c, s_)) for s_ in sides] + [z3.Not(bad_kind(c, s_)) for s_ in sides]
-                        + [z3.Not(none_param(c))]))
+                        + [z3.Not(none_param(c))] + [int_needs_edges(s_) for s_ in sides]))
 
     def post(c):
         items = []
+        if cls == "Machine":
+            items.append(Clause("state-rep-marks-setup", lambda c: z3.And(
+                z3.Not(c.new.f["state_rep"].isnone), c.new.f["state_rep"].val.items[0].t == -1,
+                c.new.f["state_rep"].val.items[1].t == -1), ("C17",)))
         for s_ in sides:
             fld = s_ + "_edge_selection"
             d0 = c.old.f[fld]
@@ -142,11 +149,12 @@ def mk_reset(lib, cls, sides, extra_none=()):
         return items
     con = FnContract(
         "reset", [], post=post,
-        pre=lambda st, args: [("edges-present-%s" % s_, z3.Not(st.f[s_ + "_edges"].isnone)) for s_ in sides],
         excs=[ExcCase("AssertionError", lambda c: z3.Or(*[bad_index(c, s_) for s_ in sides]), "constant-index-out-of-range",
                       unchanged=False, props=("C20", "C15"), may=True),
               ExcCase("ValueError", lambda c: z3.Or(none_param(c), *[bad_kind(c, s_) for s_ in sides]),
-                      "unknown-policy-or-missing-parameter", unchanged=False, props=("C20",), may=True)],
+                      "unknown-policy-or-missing-parameter", unchanged=False, props=("C20",), may=True),
+              ExcCase("TypeError", lambda c: z3.Or(*[c.old.f[s_ + "_edges"].isnone for s_ in sides]),
+                      "edges-missing", unchanged=False, props=("C20",), may=True)],
         normal_requires=ok,
         modifies=tuple(s_ + "_edge_selection" for s_ in sides) + (("state_rep",) if cls == "Machine" else ()),
         heap_modifies=("selector_kind",), uses_inv=False, keeps_inv=False, props=("C15", "C20"))
